@@ -975,8 +975,9 @@ fn run_observer(chk: &xs::Check, tier: xs::Tier, pid: &'static str, report: PRep
                 sys.storms = vec![(256, false), (65536, false), (65536, true)];
                 if t_us == 0 || t_us == 2000 {
                     sys = sys.with_pumps(if report.c14 { 3 } else { 2 });
-                    if tier.thorough() && report.c14 && t_us == 0 {
-                        // the 100 cycles of length <= 2 come first in pump_cycles
+                    if report.c14 && t_us == 0 {
+                        // the 100 cycles of length <= 2 come first in pump_cycles: 70000 rounds each,
+                        // every operation judged, from states within one step of the initial state
                         sys.long_pumps = 100;
                     }
                 }
